@@ -589,6 +589,10 @@ def xml_parser_options(ctx, prog, rule):
             elif o[0] == "agg" and o[1][0] == "adt" and "allow_dtd" in o[1][3]:
                 v = strip(o[2][o[1][3].index("allow_dtd")])
                 ok = (v[0] == "const" and v[2] in (0, False)) or (v[0] == "field" and strip(v[1])[0] == "call" and strip(v[1])[1].endswith("Default>::default"))
+                if "nodes_limit" in o[1][3]:
+                    nl = strip(o[2][o[1][3].index("nodes_limit")])
+                    okn = nl[0] == "field" and strip(nl[1])[0] == "call" and strip(nl[1])[1].endswith("Default>::default")
+                    ctx.ob(rule, "xml-parser/%s/nodes_limit" % short(p), okn, "parse_with_options(%s): a node limit below the default rejects well-formed files with many scans (the documented limits know none)" % why, where=f.file_line(bi))
             ctx.ob(rule, "xml-parser/%s/allow_dtd" % short(p), ok, "parse_with_options(%s): allow_dtd must be false for untrusted input" % why, where=f.file_line(bi))
     ctx.floor(rule, "XML parser entry points reachable from the reader API", n, 1, semantic=False)
 
